@@ -26,6 +26,10 @@
 //!   hd:e:n[:log]   get_template(n) on env e, keep the handle, mutate a CLONE of e (remove/replace n,
 //!                  clear, other loader, other configuration), render the handle again: unchanged
 //!   jk:e:k     a failing compile / failing render that must leave no residue (junk alphabet)
+//!   pn:e:k     an operation that UNWINDS and is caught on this thread: a context whose Serialize impl panics
+//!              (outermost, via render, nested), a panicking function/filter/test/object method/formatter/
+//!              auto-escape callback/path-join callback/loader, at several points of a render; afterwards the
+//!              reference environment is built and observed on a thread of its own
 //!   th:e:k     8 threads render concurrently from env e (runtime part, validated only)
 //!
 //! Header lines (consumed by the model driver / the python side):
@@ -48,6 +52,7 @@
 //!   isolation  an operation on one environment changed a clone/the original
 //!   handle     a template handle changed while a clone of its environment was modified
 //!   threads    a concurrent render differs from the single threaded fresh-environment result
+//!   thread-state  after the step this thread is still marked as serialising for a value
 //!
 //! usage: c15 gen <quick|thorough> [count] | c15 one <case tokens…> [--once] | c15 file <corpus file>
 //!        c15 foreign <rounds> | c15 fone fx:<x>:<site>:<consumer>:<via>   (foreign-value stream, see below)
@@ -104,6 +109,7 @@ enum LR {
     Missing,
     Src(usize),
     Fail,
+    Boom,
 }
 use LR::*;
 /// Loader tables 1..=5 (index 0 = "no loader set"); table 6 = row 6 in phase 0, row 7 in phase 1.
@@ -113,7 +119,7 @@ const LOADERS: [[LR; NN]; 8] = [
     [Src(1), Src(5), Fail, Src(2), Missing],
     [Src(4), Src(14), Src(13), Missing, Src(16)],
     [Src(7), Src(10), Src(12), Src(6), Src(17)],
-    [Missing, Src(15), Src(9), Src(11), Src(0)],
+    [Boom, Src(15), Src(9), Src(11), Src(0)],
     [Fail, Src(9), Missing, Fail, Src(8)],
     [Src(2), Src(6), Src(16), Src(17), Src(1)],
 ];
@@ -140,6 +146,7 @@ fn loader_fn(table: usize, real: bool) -> impl Fn(&str) -> Result<Option<String>
             None | Some(Missing) => Ok(None),
             Some(Src(s)) => Ok(Some(SOURCES[s].to_string())),
             Some(Fail) => Result::Err(Error::new(ErrorKind::InvalidOperation, "loader failure")),
+            Some(Boom) => panic!("loader panics"),
         }
     }
 }
@@ -494,13 +501,19 @@ fn render_outcome(r: Result<String, Error>) -> String {
 
 /// get_template(n).render(ctx) → (get result code incl. fingerprint, render outcome)
 fn get_render_named(env: &Environment<'static>, name: &str, c: usize) -> (String, String) {
-    let r = guarded(|| match env.get_template(name) {
-        Ok(t) => (format!("{}#{}", src_code(t.source()), fingerprint(&t)), render_outcome(t.render(make_ctx(c)))),
+    // the lookup and the render are guarded separately: a render that unwinds (a panicking loader
+    // reached through an include) does not hide what the lookup returned
+    let t = match guarded(|| env.get_template(name)) {
+        Ok(t) => t,
+        Result::Err(m) => return ("panic".into(), format!("panic:{}", m)),
+    };
+    match t {
+        Ok(t) => {
+            let g = format!("{}#{}", src_code(t.source()), fingerprint(&t));
+            let r = guarded(|| render_outcome(t.render(make_ctx(c)))).unwrap_or_else(|m| format!("panic:{}", m));
+            (g, r)
+        }
         Result::Err(e) => (err_code(&e), render_outcome(Result::Err(e))),
-    });
-    match r {
-        Ok(x) => x,
-        Result::Err(m) => ("panic".into(), format!("panic:{}", m)),
     }
 }
 fn get_render(env: &Environment<'static>, n: usize, c: usize) -> (String, String) {
@@ -678,31 +691,34 @@ fn observe(env: &Environment<'static>, via_clone: bool) -> Obs {
     let mut renders = Vec::new();
     let mut repeat_fail = None;
     for n in 0..NN {
-        // one lookup, one fingerprint, two renders (the same template + context twice)
-        let r = guarded(|| match o.get_template(NAMES[n]) {
-            Ok(t) => {
+        // one lookup, one fingerprint, two renders (the same template + context twice); lookup and
+        // renders are guarded separately
+        let second = |o: &Environment<'static>| -> String {
+            match guarded(|| o.get_template(NAMES[n])) {
+                Ok(Ok(t2)) => src_code(t2.source()),
+                Ok(Result::Err(e)) => err_code(&e),
+                Result::Err(_) => "panic".into(),
+            }
+        };
+        let (g, r1, r2, same) = match guarded(|| o.get_template(NAMES[n])) {
+            Ok(Ok(t)) => {
                 let g = format!("{}#{}", src_code(t.source()), fingerprint(&t));
-                let r1 = render_outcome(t.render(make_ctx(0)));
-                let r2 = render_outcome(t.render(make_ctx(0)));
-                let g2 = match o.get_template(NAMES[n]) {
-                    Ok(t2) => src_code(t2.source()),
-                    Result::Err(e) => err_code(&e),
-                };
-                let same = g.starts_with(&format!("{}#", g2));
+                let r1 = guarded(|| render_outcome(t.render(make_ctx(0)))).unwrap_or_else(|m| format!("panic:{}", m));
+                let r2 = guarded(|| render_outcome(t.render(make_ctx(0)))).unwrap_or_else(|m| format!("panic:{}", m));
+                let same = g.starts_with(&format!("{}#", second(o)));
                 (g, r1, r2, same)
             }
-            Result::Err(e) => {
+            Ok(Result::Err(e)) => {
                 let g = err_code(&e);
-                let g2 = match o.get_template(NAMES[n]) {
-                    Ok(t2) => src_code(t2.source()),
-                    Result::Err(e) => err_code(&e),
-                };
-                let same = g == g2;
+                let same = g == second(o);
                 let r1 = render_outcome(Result::Err(e));
                 (g, r1.clone(), r1, same)
             }
-        });
-        let (g, r1, r2, same) = r.unwrap_or_else(|m| ("panic".into(), format!("panic:{}", m), format!("panic:{}", m), true));
+            Result::Err(m) => {
+                let same = second(o) == "panic";
+                ("panic".to_string(), format!("panic:{}", m), format!("panic:{}", m), same)
+            }
+        };
         if (r1 != r2 || !same) && repeat_fail.is_none() {
             repeat_fail = Some(format!("{}: {} {} then {} (second lookup equal: {})", NAMES[n], g, r1, r2, same));
         }
@@ -762,6 +778,145 @@ fn junk(env: &Environment<'static>, k: usize) -> String {
     r.unwrap_or_else(|m| format!("panic:{}", m))
 }
 
+
+// ---------------------------------------------------------------------------- unwinding operations
+
+/// a context whose `Serialize` impl panics half way (after an engine value went through the
+/// value-handle side channel)
+struct PanicCtx;
+impl serde::Serialize for PanicCtx {
+    fn serialize<S: serde::Serializer>(&self, s: S) -> Result<S::Ok, S::Error> {
+        use serde::ser::SerializeMap;
+        let mut m = s.serialize_map(None)?;
+        m.serialize_entry("v", &Value::from(vec![1, 2, 3]))?;
+        m.serialize_entry("w", &Value::from_safe_string("<w>".into()))?;
+        panic!("Serialize impl panics");
+    }
+}
+
+/// … and one that panics inside a NESTED conversion
+struct NestedPanicCtx;
+impl serde::Serialize for NestedPanicCtx {
+    fn serialize<S: serde::Serializer>(&self, s: S) -> Result<S::Ok, S::Error> {
+        use serde::ser::SerializeMap;
+        let mut m = s.serialize_map(None)?;
+        m.serialize_entry("a", &Value::from("x"))?;
+        let inner = Value::from(minijinja::value::Serde(PanicCtx));
+        m.serialize_entry("b", &inner)?;
+        m.end()
+    }
+}
+
+#[derive(Debug)]
+struct Exploder;
+impl minijinja::value::Object for Exploder {
+    fn call_method(
+        self: &std::sync::Arc<Self>,
+        _state: &mut minijinja::State<'_, '_>,
+        _method: &str,
+        _args: &[Value],
+    ) -> Result<Value, Error> {
+        panic!("object method panics")
+    }
+}
+
+const PANIC_OPS: usize = 14;
+
+/// An operation that unwinds out of the engine and is caught ON THIS THREAD.  Panicking callbacks are
+/// installed on a clone (with the default syntax and no fuel limit, so that the callback is reached);
+/// panicking contexts are converted for the environment itself.  Returns "panic" when it unwound.
+fn panic_op(env: &Environment<'static>, k: usize) -> String {
+    let was = LOGGING.swap(false, Ordering::Relaxed);
+    let boom = || -> Value { panic!("function panics") };
+    let r = guarded(|| -> String {
+        let mut c = env.clone();
+        c.set_syntax(syntax_of(0));
+        c.set_fuel(None);
+        c.set_recursion_limit(60);
+        let _ = c.add_template("zz-inc", "inc[{{ boom() }}]");
+        let done = |r: Result<String, Error>| match r {
+            Ok(_) => "ok".to_string(),
+            Result::Err(e) => format!("err:{:?}", e.kind()),
+        };
+        match k {
+            // the context conversion itself panics: outermost, via render, nested
+            0 => format!("{:?}", Value::from(minijinja::value::Serde(PanicCtx)).kind()),
+            1 => done(env.render_str("x", Value::from(minijinja::value::Serde(PanicCtx)))),
+            2 => format!("{:?}", Value::from(minijinja::value::Serde(NestedPanicCtx)).kind()),
+            // a function panics: before any output / after output inside a macro inside a capture / in an include
+            3 => {
+                c.add_function("boom", boom);
+                done(c.render_str("{{ boom() }}", context! {}))
+            }
+            4 => {
+                c.add_function("boom", boom);
+                done(c.render_str("out{% macro m() %}{% set q %}{{ boom() }}{% endset %}{{ q }}{% endmacro %}[{{ m() }}]", context! {}))
+            }
+            5 => {
+                c.add_function("boom", boom);
+                done(c.render_str("a{% for i in [1, 2] %}{% include 'zz-inc' %}{% endfor %}", context! {}))
+            }
+            // a filter panics mid-output, a test panics inside a loop
+            6 => {
+                c.add_filter("boomf", |_v: Value| -> Value { panic!("filter panics") });
+                done(c.render_str("before{{ [1, 2]|tojson }}{{ 1|boomf }}after", context! {}))
+            }
+            7 => {
+                c.add_test("boomt", |_v: Value| -> bool { panic!("test panics") });
+                done(c.render_str("{% for i in [1, 2] %}{{ i }}{% if i is boomt %}x{% endif %}{% endfor %}", context! {}))
+            }
+            // an object method panics; the formatter panics
+            8 => done(c.render_str("o{{ obj.explode(1) }}", context! { obj => Value::from_object(Exploder) })),
+            9 => {
+                c.set_formatter(|_out, _state, _value| panic!("formatter panics"));
+                done(c.render_str("f{{ 1 }}", context! {}))
+            }
+            // the auto-escape callback panics while a template is compiled; the path-join callback
+            // panics on an include; the loader panics on a lookup
+            10 => {
+                c.set_auto_escape_callback(|_name| panic!("auto-escape callback panics"));
+                match c.template_from_named_str("p", "x") {
+                    Ok(_) => "ok".to_string(),
+                    Result::Err(e) => format!("err:{:?}", e.kind()),
+                }
+            }
+            11 => {
+                c.set_path_join_callback(|_name, _parent| panic!("path join callback panics"));
+                done(c.render_str("j{% include 'zz-inc' %}", context! {}))
+            }
+            12 => {
+                c.set_loader(|_name| panic!("loader panics"));
+                match c.get_template("zz-unknown") {
+                    Ok(_) => "ok".to_string(),
+                    Result::Err(e) => format!("err:{:?}", e.kind()),
+                }
+            }
+            // a conversion panics inside a filter, i.e. nested in a running render
+            _ => {
+                c.add_filter("convf", |_v: Value| -> Value { Value::from(minijinja::value::Serde(PanicCtx)) });
+                done(c.render_str("c{{ [1]|tojson }}{{ 1|convf }}", context! { v => Value::from(minijinja::value::Serde(vec![1, 2])) }))
+            }
+        }
+    });
+    LOGGING.store(was, Ordering::Relaxed);
+    match r {
+        Ok(s) => format!("no-panic:{}", s),
+        Result::Err(_) => "panic".to_string(),
+    }
+}
+
+/// the thread-local state as far as the public API shows it: is this thread (believed to be) inside a
+/// `Value::from(Serde(..))` conversion, and does a `Value` serialise to its data?
+fn thread_probe() -> &'static str {
+    let marked = minijinja::value::serializing_for_value();
+    let data = serde_json::to_string(&Value::from(vec![1, 2])).map(|s| s == "[1,2]").unwrap_or(false);
+    if marked || !data {
+        "T1"
+    } else {
+        "T0"
+    }
+}
+
 #[derive(Clone, Debug)]
 enum Op {
     Add { owned: bool, e: usize, n: usize, s: usize },
@@ -778,6 +933,7 @@ enum Op {
     Render { e: usize, n: usize, c: usize },
     Handle { e: usize, n: usize },
     Junk { e: usize, k: usize },
+    Panic { e: usize, k: usize },
     Threads { e: usize, k: u64 },
 }
 
@@ -810,6 +966,7 @@ fn op_token(op: &Op, log: Option<&[usize]>) -> String {
         Op::Render { e, n, c } => format!("r:{}:{}:{}:{}", e, n, c, log_str(log)),
         Op::Handle { e, n } => format!("hd:{}:{}:{}", e, n, log_str(log)),
         Op::Junk { e, k } => format!("jk:{}:{}", e, k),
+        Op::Panic { e, k } => format!("pn:{}:{}", e, k),
         Op::Threads { e, k } => format!("th:{}:{}", e, k),
     }
 }
@@ -846,6 +1003,7 @@ fn parse_op(tok: &str) -> Option<Op> {
         "r" => Op::Render { e: num(1)?, n: name(2)?, c: num(3)? },
         "hd" => Op::Handle { e: num(1)?, n: name(2)? },
         "jk" => Op::Junk { e: num(1)?, k: num(2)? },
+        "pn" => Op::Panic { e: num(1)?, k: num(2).filter(|k| *k < PANIC_OPS)? },
         "th" => Op::Threads { e: num(1)?, k: f.get(2)?.parse().ok()? },
         _ => return None,
     })
@@ -958,7 +1116,11 @@ fn gen_history(rng: &mut Rng, with_threads: bool) -> Vec<Op> {
         } else if w < t[9] {
             Op::Handle { e, n }
         } else {
-            Op::Junk { e, k: rng.below(8) as usize }
+            if rng.chance(1, 2) {
+                Op::Panic { e, k: rng.below(PANIC_OPS as u64) as usize }
+            } else {
+                Op::Junk { e, k: rng.below(8) as usize }
+            }
         };
         ops.push(op);
     }
@@ -1049,7 +1211,7 @@ fn op_target(op: &Op) -> Option<usize> {
     match op {
         Op::Add { e, .. } | Op::Rm { e, .. } | Op::RmProbe { e, .. } | Op::Cl { e } | Op::Sl { e, .. } | Op::RegAdd { e, .. } | Op::RegRm { e, .. }
         | Op::SetLt { e, .. } | Op::SetRt { e, .. } | Op::Clone { e } | Op::Render { e, .. } | Op::Handle { e, .. }
-        | Op::Junk { e, .. } | Op::Threads { e, .. } => Some(*e),
+        | Op::Junk { e, .. } | Op::Panic { e, .. } | Op::Threads { e, .. } => Some(*e),
         Op::Phase { .. } => None,
     }
 }
@@ -1062,6 +1224,7 @@ fn run_history(ops: &[Op], hseed: u64) -> (String, String, String, String) {
     let mut impl_steps = Vec::new();
     let mut oracle_steps = Vec::new();
     let mut notes: Vec<String> = Vec::new();
+    let mut fresh_on_new_thread = false;
     envs[0].last_obs = Some(observe(&envs[0].env, true));
 
     for op in ops {
@@ -1073,7 +1236,7 @@ fn run_history(ops: &[Op], hseed: u64) -> (String, String, String, String) {
         if let Some(t) = target {
             if t >= envs.len() {
                 case_toks.push(op_token(op, None));
-                impl_steps.push("bad-env".to_string());
+                impl_steps.push(format!("bad-env~{}", thread_probe()));
                 oracle_steps.push("=".to_string());
                 notes.push("-".to_string());
                 continue;
@@ -1221,45 +1384,65 @@ fn run_history(ops: &[Op], hseed: u64) -> (String, String, String, String) {
                 let want = get_render(&fresh, *n, 0);
                 let want_log = std::mem::take(&mut *FRESH_LOG.lock().unwrap());
                 REAL_LOG.lock().unwrap().clear();
-                let res;
-                {
-                    let handle = l.env.get_template(NAMES[*n]);
-                    res = match &handle {
+                let env_ref = &l.env;
+                let want_ref = &want;
+                let want_log_ref = &want_log;
+                let n_ = *n;
+                // a panicking loader unwinds out of the lookup: caught here like everywhere else
+                let outcome = guarded(move || {
+                    let mut fails: Vec<String> = Vec::new();
+                    let handle = env_ref.get_template(NAMES[n_]);
+                    let res = match &handle {
                         Ok(t) => format!("{}#{}", src_code(t.source()), fingerprint(t)),
                         Result::Err(e) => err_code(e),
                     };
                     let first = match &handle {
-                        Ok(t) => render_outcome(t.render(make_ctx(0))),
+                        Ok(t) => guarded(|| render_outcome(t.render(make_ctx(0)))).unwrap_or_else(|m| format!("panic:{}", m)),
                         Result::Err(_) => String::new(),
                     };
                     let got_log = std::mem::take(&mut *REAL_LOG.lock().unwrap());
                     let was = LOGGING.swap(false, Ordering::Relaxed);
                     if let Ok(t) = &handle {
-                        if (res.clone(), first.clone()) != want {
-                            fails.push(format!("FAILfresh{{handle {}: {} {} vs fresh {} {}}}", NAMES[*n], res, first, want.0, want.1));
-                        } else if got_log != want_log {
-                            fails.push(format!("FAILfresh{{handle {}: loader consulted for {:?}, fresh environment {:?}}}", NAMES[*n], got_log, want_log));
+                        if (res.clone(), first.clone()) != *want_ref {
+                            fails.push(format!("FAILfresh{{handle {}: {} {} vs fresh {} {}}}", NAMES[n_], res, first, want_ref.0, want_ref.1));
+                        } else if got_log != *want_log_ref {
+                            fails.push(format!("FAILfresh{{handle {}: loader consulted for {:?}, fresh environment {:?}}}", NAMES[n_], got_log, want_log_ref));
                         }
                         let before = (fingerprint(t), first.clone());
-                        let mut c = l.env.clone();
-                        c.remove_template(NAMES[*n]);
-                        let _ = c.add_template_owned(NAMES[*n].to_string(), SOURCES[(*n + 3) % 8].to_string());
+                        let mut c = env_ref.clone();
+                        c.remove_template(NAMES[n_]);
+                        let _ = c.add_template_owned(NAMES[n_].to_string(), SOURCES[(n_ + 3) % 8].to_string());
                         c.set_trim_blocks(!c.trim_blocks());
                         c.set_auto_escape_callback(|_| AutoEscape::Html);
-                        let _ = c.add_template(NAMES[*n], SOURCES[(*n + 1) % 8]);
-                        let mid = (fingerprint(t), render_outcome(t.render(make_ctx(0))));
+                        let _ = c.add_template(NAMES[n_], SOURCES[(n_ + 1) % 8]);
+                        let mid = (fingerprint(t), guarded(|| render_outcome(t.render(make_ctx(0)))).unwrap_or_else(|m| format!("panic:{}", m)));
                         c.clear_templates();
-                        c.set_loader(loader_fn(5, false));
-                        let _ = c.get_template(NAMES[*n]).map(|t| t.render(make_ctx(0)));
+                        c.set_loader(loader_fn(3, false));
+                        let _ = guarded(|| c.get_template(NAMES[n_]).map(|t| t.render(make_ctx(0)).is_ok()));
                         drop(c);
-                        let after = (fingerprint(t), render_outcome(t.render(make_ctx(0))));
+                        let after = (fingerprint(t), guarded(|| render_outcome(t.render(make_ctx(0)))).unwrap_or_else(|m| format!("panic:{}", m)));
                         if before != mid || before != after {
-                            fails.push(format!("FAILhandle{{{}: {:?} then {:?} then {:?}}}", NAMES[*n], before, mid, after));
+                            fails.push(format!("FAILhandle{{{}: {:?} then {:?} then {:?}}}", NAMES[n_], before, mid, after));
                         }
                     }
                     LOGGING.store(was, Ordering::Relaxed);
-                    log_used = Some(got_log);
-                }
+                    (res, fails, got_log)
+                });
+                let res = match outcome {
+                    Ok((res, f, got_log)) => {
+                        fails.extend(f);
+                        log_used = Some(got_log);
+                        res
+                    }
+                    Result::Err(_) => {
+                        LOGGING.store(true, Ordering::Relaxed);
+                        log_used = Some(std::mem::take(&mut *REAL_LOG.lock().unwrap()));
+                        if want.0 != "panic" {
+                            fails.push(format!("FAILfresh{{handle {}: lookup panicked, fresh environment {} {}}}", NAMES[*n], want.0, want.1));
+                        }
+                        "panic".to_string()
+                    }
+                };
                 let was = LOGGING.swap(false, Ordering::Relaxed);
                 l.spec.contents = contents_after(&fresh, &l.spec.contents, &l.spec.lt);
                 LOGGING.store(was, Ordering::Relaxed);
@@ -1282,6 +1465,11 @@ fn run_history(ops: &[Op], hseed: u64) -> (String, String, String, String) {
                 }
                 "jk".into()
             }
+            Op::Panic { e, k } => {
+                // from here on the reference environment lives on a thread of its own
+                fresh_on_new_thread = true;
+                panic_op(&envs[*e].env, *k)
+            }
             Op::Threads { e, k } => {
                 let (f, newc) = threads_phase(&envs[*e], *k, &mut frng);
                 if let Some(f) = f {
@@ -1301,8 +1489,18 @@ fn run_history(ops: &[Op], hseed: u64) -> (String, String, String, String) {
                 fails.push(format!("FAILrepeat{{env{} {}}}", i, rf));
             }
             // (2) fresh environment with the same value
-            let fresh = build_fresh(&l.spec, &mut frng);
-            let fobs = observe(&fresh, false);
+            let fobs = if fresh_on_new_thread {
+                // a thread that has not seen any of the history (nor any caught panic)
+                let spec = &l.spec;
+                let fr = &mut frng;
+                spawn_join(move || {
+                    let fresh = build_fresh(spec, fr);
+                    observe(&fresh, false)
+                })
+            } else {
+                let fresh = build_fresh(&l.spec, &mut frng);
+                observe(&fresh, false)
+            };
             if let Some(d) = obs.diff(&fobs) {
                 fails.push(format!("FAILfresh{{env{} {}}}", i, d));
             }
@@ -1335,7 +1533,11 @@ fn run_history(ops: &[Op], hseed: u64) -> (String, String, String, String) {
             impl_envs.push(obs.model_part());
             l.last_obs = Some(obs);
         }
-        impl_steps.push(format!("{}|{}", opres, impl_envs.join("|")));
+        let tp = thread_probe();
+        if tp != "T0" {
+            fails.push("FAILthread-state{after the step this thread is still marked as serialising for a value: a Value no longer serialises to its data}".to_string());
+        }
+        impl_steps.push(format!("{}~{}|{}", opres, tp, impl_envs.join("|")));
         oracle_steps.push(if fails.is_empty() { "=".to_string() } else { fails.join("") });
         notes.push(note);
     }
@@ -1610,19 +1812,47 @@ fn main() {
             };
             let mut rng = Rng::new(seed_from_env());
             out.write_all(tables().as_bytes()).unwrap();
-            for h in 0..count {
-                let ops = gen_history(&mut rng, h % 4 == 0);
-                let hseed = rng.next();
-                let (case, imp, orc, notes) = run_history(&ops, hseed);
-                writeln!(out, "{}\t{}\t{}\t{}", case, imp, orc, notes).unwrap();
+            out.flush().unwrap();
+            drop(out);
+            // Histories run on a worker thread.  When a history leaves the thread's state dirty (reported
+            // by that history), the following ones continue on a new thread so that every failure is
+            // reported where it is caused.
+            let mut h = 0u64;
+            while h < count {
+                let rng_ref = &mut rng;
+                h = std::thread::scope(|sc| {
+                    std::thread::Builder::new()
+                        .stack_size(64 << 20)
+                        .spawn_scoped(sc, move || {
+                            let so = std::io::stdout();
+                            let mut out = std::io::BufWriter::new(so.lock());
+                            let mut h = h;
+                            while h < count {
+                                let ops = gen_history(rng_ref, h % 4 == 0);
+                                let hseed = rng_ref.next();
+                                let (case, imp, orc, notes) = run_history(&ops, hseed);
+                                writeln!(out, "{}\t{}\t{}\t{}", case, imp, orc, notes).unwrap();
+                                h += 1;
+                                if thread_probe() != "T0" {
+                                    break;
+                                }
+                            }
+                            out.flush().unwrap();
+                            h
+                        })
+                        .unwrap()
+                        .join()
+                        .unwrap()
+                });
             }
+            return;
         }
         Some("one") => {
             let toks: Vec<String> = args[2..].iter().flat_map(|s| s.split_whitespace().map(|x| x.to_string()).collect::<Vec<_>>()).collect();
             let ops: Vec<Op> = toks.iter().filter_map(|t| parse_op(t)).collect();
             out.write_all(tables().as_bytes()).unwrap();
             for seed in 0..4u64 {
-                let (case, imp, orc, notes) = run_history(&ops, seed);
+                let (case, imp, orc, notes) = spawn_join(|| run_history(&ops, seed));
                 writeln!(out, "{}\t{}\t{}\t{}", case, imp, orc, notes).unwrap();
                 if seed == 0 && args.iter().any(|a| a == "--once") {
                     break;
@@ -1655,7 +1885,8 @@ fn main() {
                     continue;
                 }
                 let ops: Vec<Op> = line.split_whitespace().filter_map(parse_op).collect();
-                let (case, imp, orc, notes) = run_history(&ops, i as u64);
+                // every corpus history on a thread of its own
+                let (case, imp, orc, notes) = spawn_join(|| run_history(&ops, i as u64));
                 writeln!(out, "{}\t{}\t{}\t{}", case, imp, orc, notes).unwrap();
             }
         }
